@@ -666,6 +666,33 @@ class Gen:
             chars = None if self.rng.random() < 0.4 else self.rng.choice(['a', 'ab', ' -', 'b ', '', t[:1] + t[-1:], '\t '])
             self.do({'op': 'strip', 'r': r, 'm': self.rng.choice(['strip', 'lstrip', 'rstrip']), 'chars': chars, 'inplace': self.ip()})
 
+    def g_strip_enclosed(self):
+        """Leading/trailing strippable characters under an enclosing style, with a style change exactly at the first/last
+        kept character; stripped in place, not in place, and through AnsiStr."""
+        if not self.room(6):
+            return
+        lead = self.rng.choice(['  ', ' ', '\t ', '--', ''])
+        trail = self.rng.choice(['', '', ' ', '--'])
+        core = ''.join(self.rng.choice('abA') for _ in range(self.rng.randint(2, 5)))
+        text = lead + core + trail
+        n = len(text)
+        r = self.do({'op': 'new', 'cls': 'S', 'text': text, 'sets': [], 'S': []})['res'][0]
+        a0 = self.rng.choice([0, max(0, len(lead) - 1)])
+        self.do({'op': 'apply', 'r': r, 'sets': [{'k': 'aset', 'v': '4'}], 'S': ['4'], 'start': a0, 'end': self.rng.choice([None, n, n - 1]), 'top': True})
+        self.do({'op': 'apply', 'r': r, 'sets': [{'k': 'aset', 'v': '31'}], 'S': ['31'], 'start': len(lead),
+                 'end': len(lead) + self.rng.randint(1, len(core)), 'top': True})
+        if self.rng.random() < 0.5:
+            self.do({'op': 'apply', 'r': r, 'sets': [{'k': 'aset', 'v': '42'}], 'S': ['42'], 'start': len(lead) + len(core) - 1,
+                     'end': len(lead) + len(core), 'top': True})
+        chars = None if lead.strip() == '' and trail.strip() == '' and self.rng.random() < 0.7 else ' -\t'
+        meth = self.rng.choice(['lstrip', 'strip', 'strip', 'rstrip'])
+        target = r
+        if self.rng.random() < 0.4:
+            target = self.do({'op': 'new', 'cls': 'A', 'src': r, 'sets': [], 'S': []})['res'][0]
+        e = self.do({'op': 'strip', 'r': target, 'm': meth, 'chars': chars, 'inplace': self.rng.random() < 0.6})
+        if e['out'] == 'ok' and e['res']:
+            self.probe_closed(e['res'][0])
+
     def g_rmfix(self):
         r = self.pick()
         if r and self.room(2):
@@ -861,7 +888,7 @@ PROFILES = {
     'C03': weights(render=0, reparse=1.2, simplify=1.2, apply=4, remove=2),
     'C10': dict(new=1.5, case=2, pad=2, strip=2, rmfix=2, replace=2, expandtabs=1, split=2.5, splitlines=1.5, partition=2, query=8,
                 assign_str=0.5, apply=0.5),
-    'C11': dict(nonuniform=2.5, new=0.5, case=1.5, strip=2, rmfix=2, replace=3.5, expandtabs=1, split=3.5, splitlines=1.5,
+    'C11': dict(nonuniform=2.5, strip_enclosed=1.5, new=0.5, case=1.5, strip=2, rmfix=2, replace=3.5, expandtabs=1, split=3.5, splitlines=1.5,
                 partition=2.5, assign_str=1.5, apply=1.5, remove=0.5, add=0.5),
     'C12': dict(nonuniform=2, new=1, pad=5, pad_nested=1.5, pad_pair=1.5, fmt=5, apply=2, remove=0.5, slice=0.5, add=0.5),
     'C16': weights(matching=6, apply=3, remove=1, slice=0.5, render=0.2, case=1.5, copy=0.3, match_case_match=1.5),
